@@ -133,11 +133,13 @@ def run_case(case, prop) -> Dict[str, Any]:
     digs = [digest(base.hist)]
     reported = set()
     scen = next(iter(out["scen"]))
+    st["profile_" + sp.get("profile", "sync")] = 1
     for f in pts:
         viols, fired, r = check_one(sc, sp, base, f)
         out["runs"] += 1
         out["sim_time"] += r.stats["vtime"]
         digs.append(digest(r.hist))
+        out["fps"].add(pcore.fingerprint(r.hist))
         if not fired:
             st["fault_not_fired"] = st.get("fault_not_fired", 0) + 1
             continue
